@@ -113,51 +113,10 @@ Qed.
 Lemma qunit_idem thr q u : 0 < thr <= 1 -> qunit_m Rops thr q = Some u -> qunit_m Rops thr u = Some u.
 Proof. intros [H0 H1] H. apply qunit_fixed; [exact H1|]. eapply qunit_unit; eauto. Qed.
 
-(* ------------------------------------------------------------------ Twist3.unit = unitvec of the whole 6-vector *)
-Lemma twist3_unit_some thr S U : twist3_unit_m Rops thr S = Some U ->
-  thr < norm6 Rops S /\ U = vdiv6 Rops S (norm6 Rops S).
-Proof.
-  unfold twist3_unit_m. cbn [ltb Rops]. destruct (Rltb thr (norm6 Rops S)) eqn:E; [|discriminate].
-  apply Rltb_true in E. intros H; injection H as <-. split; [exact E|reflexivity].
-Qed.
-Lemma twist3_unit_whole thr S U : 0 <= thr -> twist3_unit_m Rops thr S = Some U -> dot6 Rops U U = 1.
-Proof.
-  intros Ht H. apply twist3_unit_some in H. destruct H as [Hn ->]. destruct_tuples. nm_simpl.
-  apply div_unit6; [lra|]. apply sqrt_sq. lra.
-Qed.
-(* what the property asks of a unit twist *)
+(* ------------------------------------------------------------------ what the property asks of a unit twist *)
 Definition unit_twist_spec (thrw : R) (S : V6 R) : Prop :=
   (thrw <= norm3 Rops (tw_w S) -> normsq3 Rops (tw_w S) = 1) /\
   (norm3 Rops (tw_w S) < thrw -> normsq3 Rops (tw_v S) = 1).
-Lemma twist3_unit_refuted thr thrw : 0 <= thr < 1 -> 0 < thrw <= 1/2 ->
-  exists S U, twist3_unit_m Rops thr S = Some U /\ ~ unit_twist_spec thrw U.
-Proof.
-  intros Ht Hw. exists (1,0,0,1,0,0).
-  assert (Hs : sqrt 2 * sqrt 2 = 2) by (apply sqrt_sqrt; lra).
-  assert (Hp : 1 < sqrt 2) by (pose proof (sqrt_pos 2); nra).
-  assert (Hn : norm6 Rops (1,0,0,1,0,0) = sqrt 2) by (nm_simpl; f_equal; ring).
-  eexists. split.
-  - unfold twist3_unit_m. cbn [ltb Rops]. rewrite Hn.
-    assert (E : Rltb thr (sqrt 2) = true) by (apply Rltb_true; lra). rewrite E. reflexivity.
-  - intros [H1 _]. nm_simpl.
-    assert (Hw' : sqrt (1 / sqrt 2 * (1 / sqrt 2) + 0 / sqrt 2 * (0 / sqrt 2) + 0 / sqrt 2 * (0 / sqrt 2)) = 1 / sqrt 2).
-    { apply sqrt_lem_1.
-      - assert (0 < 1 / sqrt 2) by (apply Rdiv_lt_0_compat; lra). nra.
-      - assert (0 < 1 / sqrt 2) by (apply Rdiv_lt_0_compat; lra). lra.
-      - field. lra. }
-    rewrite Hw' in H1.
-    assert (Hhalf : 1 / sqrt 2 * (1 / sqrt 2) = 1/2) by (field_simplify_eq; lra).
-    assert (Hge : 1/2 <= 1 / sqrt 2).
-    { assert (0 < 1 / sqrt 2) by (apply Rdiv_lt_0_compat; lra). nra. }
-    specialize (H1 ltac:(lra)). lra.
-Qed.
-Lemma twist3_unit_partial thr S U : 0 <= thr -> twist3_unit_m Rops thr S = Some U ->
-  (tw_v S = (0,0,0) -> normsq3 Rops (tw_w U) = 1) /\ (tw_w S = (0,0,0) -> normsq3 Rops (tw_v U) = 1).
-Proof.
-  intros Ht H. pose proof (twist3_unit_whole _ _ _ Ht H) as HU.
-  apply twist3_unit_some in H. destruct H as [Hn ->]. destruct_tuples. nm_simpl.
-  split; intros E; injection E as -> -> ->; unfold Rdiv in *; nra.
-Qed.
 
 (* ------------------------------------------------------------------ trnorm *)
 (* columns n/N, (a x n)/P, a/A with n = o x a form a rotation matrix *)
@@ -585,3 +544,91 @@ Proof.
 Qed.
 Lemma angdiff_idem p d : 0 < p -> angdiff_p Rops p (angdiff_p Rops p d) = angdiff_p Rops p d.
 Proof. intros Hp. apply angdiff_fixed; [exact Hp|]. apply angdiff_range. exact Hp. Qed.
+
+(* ------------------------------------------------------------------ trnorm2 (2x2 and 3x3) *)
+Lemma norm2_nonneg v : 0 <= norm2 Rops v.
+Proof. unfold norm2. cbn [sqrt_ Rops]. apply sqrt_pos. Qed.
+Lemma unitvec2_some thr v u : unitvec2_m Rops thr v = Some u ->
+  thr < norm2 Rops v /\ u = vdiv2 Rops v (norm2 Rops v).
+Proof.
+  unfold unitvec2_m. cbn [ltb Rops]. destruct (Rltb thr (norm2 Rops v)) eqn:E; [|discriminate].
+  apply Rltb_true in E. intros H; injection H as <-. split; [exact E|reflexivity].
+Qed.
+Lemma unitvec2_defined thr v : thr < norm2 Rops v -> unitvec2_m Rops thr v = Some (vdiv2 Rops v (norm2 Rops v)).
+Proof. intros H. unfold unitvec2_m. cbn [ltb Rops]. apply Rltb_true in H. rewrite H. reflexivity. Qed.
+Lemma unitvec2_none thr v : unitvec2_m Rops thr v = None <-> norm2 Rops v <= thr.
+Proof.
+  unfold unitvec2_m. cbn [ltb Rops]. destruct (Rltb thr (norm2 Rops v)) eqn:E.
+  - apply Rltb_true in E. split; [discriminate|lra].
+  - apply Rltb_false in E. split; [lra|reflexivity].
+Qed.
+
+Lemma trnorm22_some thr r00 r01 r10 r11 R' : trnorm22_m Rops thr ((r00,r01),(r10,r11)) = Some R' ->
+  let n := norm2 Rops (r01,r11) in
+  thr < n /\ R' = ((r11/n, r01/n), (- (r01/n), r11/n)).
+Proof.
+  unfold trnorm22_m. destruct (unitvec2_m Rops thr (r01, r11)) as [[a0 a1]|] eqn:E; [|discriminate].
+  apply unitvec2_some in E. destruct E as [Hn E]. cbn [vdiv2 div Rops] in E. injection E as -> ->.
+  intros H; injection H as <-. cbv zeta. split; [exact Hn|reflexivity].
+Qed.
+Lemma trnorm22_none thr r00 r01 r10 r11 :
+  trnorm22_m Rops thr ((r00,r01),(r10,r11)) = None <-> norm2 Rops (r01,r11) <= thr.
+Proof.
+  rewrite <- unitvec2_none. unfold trnorm22_m.
+  destruct (unitvec2_m Rops thr (r01, r11)) as [[a0 a1]|]; split; intros; try discriminate; reflexivity.
+Qed.
+Lemma trnorm22_defined thr r00 r01 r10 r11 : thr < norm2 Rops (r01,r11) ->
+  exists R', trnorm22_m Rops thr ((r00,r01),(r10,r11)) = Some R'.
+Proof.
+  intros H. destruct (trnorm22_m Rops thr ((r00,r01),(r10,r11))) eqn:E; [eexists; reflexivity|].
+  apply trnorm22_none in E. lra.
+Qed.
+(* projects onto SO(2); the second column of the result is a positive multiple of the second column of the input *)
+Lemma trnorm22_SO2 thr R R' : 0 <= thr -> trnorm22_m Rops thr R = Some R' ->
+  SO2 R' /\ (exists k, 0 < k /\ (let '((_,b),(_,d)) := R' in (b,d)) = (let '((_,r01),(_,r11)) := R in (k*r01, k*r11))).
+Proof.
+  intros Ht H. destruct R as [[r00 r01] [r10 r11]]. apply trnorm22_some in H. cbv zeta in H. destruct H as [Hn ->].
+  pose proof (norm2_sq r01 r11) as Hs. revert Hn Hs. generalize (norm2 Rops (r01,r11)). intros n Hn Hs.
+  assert (Hn0 : 0 < n) by lra.
+  assert (Hu : (r01/n)*(r01/n)+(r11/n)*(r11/n) = 1) by (apply div_unit2; assumption).
+  split.
+  - unfold SO2. repeat split; nra.
+  - exists (/ n). split; [apply Rinv_0_lt_compat; exact Hn0|]. unfold Rdiv. f_equal; ring.
+Qed.
+Lemma trnorm22_fixed thr R : thr < 1 -> SO2 R -> trnorm22_m Rops thr R = Some R.
+Proof.
+  intros Ht H. destruct R as [[a b] [c d]]. pose proof (SO2_columns _ _ _ _ H) as (Had & Hbc & _).
+  unfold SO2 in H. destruct H as (H1 & H2 & H3 & H4).
+  assert (Hn : norm2 Rops (b,d) = 1).
+  { unfold norm2. cbn [sqrt_ Rops]. apply sqrt_eq_1. nm_simpl. subst a b. nra. }
+  unfold trnorm22_m. rewrite unitvec2_defined by lra. rewrite Hn. cbn [vdiv2 div neg Rops]. subst a b.
+  apply (f_equal Some). tuple_eq ltac:(field).
+Qed.
+Lemma trnorm22_idem thr R R' : 0 <= thr < 1 -> trnorm22_m Rops thr R = Some R' -> trnorm22_m Rops thr R' = Some R'.
+Proof. intros [H0 H1] H. apply trnorm22_fixed; [exact H1|]. eapply trnorm22_SO2; eauto. Qed.
+
+Lemma SE2_rt (Rm : M22 R) (t : V2 R) : SO2 Rm -> SE2 (rt2tr2 Rops Rm t).
+Proof. intros H. destruct_tuples. unfold SE2. nm_simpl. split; [exact H|reflexivity]. Qed.
+Lemma SE2_decompose A : SE2 A -> A = rt2tr2 Rops (t2r2 A) (transl2 A).
+Proof. intros [_ H]. destruct_tuples. nm_simpl. injection H; intros; subst. reflexivity. Qed.
+Lemma trnorm23_some thr A A' : trnorm23_m Rops thr A = Some A' ->
+  exists R', trnorm22_m Rops thr (t2r2 A) = Some R' /\ A' = rt2tr2 Rops R' (transl2 A).
+Proof.
+  unfold trnorm23_m. destruct (trnorm22_m Rops thr (t2r2 A)) as [R'|]; [|discriminate].
+  intros H; injection H as <-. exists R'. split; reflexivity.
+Qed.
+Lemma trnorm23_SE2 thr A A' : 0 <= thr -> trnorm23_m Rops thr A = Some A' ->
+  SE2 A' /\ transl2 A' = transl2 A /\ trnorm22_m Rops thr (t2r2 A) = Some (t2r2 A').
+Proof.
+  intros Ht H. apply trnorm23_some in H. destruct H as (R' & H & ->). split; [|split].
+  - apply SE2_rt. eapply trnorm22_SO2; eauto.
+  - destruct_tuples. nm_simpl. reflexivity.
+  - rewrite H. f_equal. destruct_tuples. nm_simpl. reflexivity.
+Qed.
+Lemma trnorm23_fixed thr A : thr < 1 -> SE2 A -> trnorm23_m Rops thr A = Some A.
+Proof.
+  intros Ht H. unfold trnorm23_m. destruct H as [HR HL]. rewrite (trnorm22_fixed thr _ Ht HR).
+  f_equal. symmetry. apply SE2_decompose. split; assumption.
+Qed.
+Lemma trnorm23_idem thr A A' : 0 <= thr < 1 -> trnorm23_m Rops thr A = Some A' -> trnorm23_m Rops thr A' = Some A'.
+Proof. intros [H0 H1] H. apply trnorm23_fixed; [exact H1|]. eapply trnorm23_SE2; eauto. Qed.
